@@ -362,7 +362,18 @@ class Evaluator:
         init = cls.lookup("__init__")
         if init is not None:
             self.call_func(init, args, kwargs, self_obj=o, cls_ctx=init.cls)
+        hook = self.hooks.get("constructed")
+        if hook:
+            hook(self, o, node, frame)
         return o
+
+    def sym_lookup(self, d, key):
+        """look a symbolic key up in a dict with concrete keys: one path per key it may equal, and one for 'absent'.
+        -> (found, value)"""
+        for k in list(d.keys()):
+            if is_concrete(k) and self.decide(Opq("cmp", "==", key, k)):
+                return True, d[k]
+        return False, None
 
     # ---- statements -------------------------------------------------------------
     def block(self, stmts, fr):
@@ -733,6 +744,9 @@ class Evaluator:
                 return any(any(m is k.cls for m in mro) for k in classes)
             if (is_concrete(v) or isinstance(v, (SList, dict))) and all(isinstance(k, ClsRef) for k in classes):
                 return False   # a plain value is not an instance of a repository class
+            if (isinstance(v, Field) or (isinstance(v, Opq) and v.op == "neg" and isinstance(v.args[0], Field))) \
+                    and all(isinstance(k, Opq) and k.op == "global" for k in classes):
+                return "int" in {k.args[0] for k in classes}   # an operand field is an int
             if is_concrete(v) and v is not None and all(isinstance(k, Opq) and k.op == "global" for k in classes):
                 names = {k.args[0] for k in classes}
                 tn = {bool: {"bool", "int"}, int: {"int"}, str: {"str"}, float: {"float"}, bytes: {"bytes"}, tuple: {"tuple"}}
@@ -805,6 +819,9 @@ class Evaluator:
                         base[k] = x
                     return None
                 if name == "get" and 1 <= len(args) <= 2:
+                    if is_symbolic(args[0]) and args[0] not in base and base and all(is_concrete(k) for k in base):
+                        found, v = self.sym_lookup(base, args[0])
+                        return v if found else (args[1] if len(args) > 1 else None)
                     return base.get(args[0], args[1] if len(args) > 1 else None)
                 if name == "setdefault" and len(args) == 2:
                     return base.setdefault(args[0], args[1])
@@ -899,6 +916,10 @@ class Evaluator:
                 return bool(_CMP[type(op)](a, b))
             except Exception:
                 pass
+        if isinstance(op, (ast.In, ast.NotIn)) and is_symbolic(a) and isinstance(b, dict) and b and all(is_concrete(x) for x in b) \
+                and a not in b:
+            found, _ = self.sym_lookup(b, a)
+            return found != isinstance(op, ast.NotIn)
         if isinstance(op, (ast.In, ast.NotIn)) and is_concrete(a):
             items = b.items if isinstance(b, SList) and b.exact else (list(b) if isinstance(b, (tuple, dict)) else None)
             if items is not None and all(is_concrete(x) for x in items):
@@ -1003,6 +1024,11 @@ class Evaluator:
                     return base[k]
             except TypeError:
                 pass
+            if is_symbolic(k) and base and all(is_concrete(x) for x in base):
+                found, v = self.sym_lookup(base, k)
+                if found:
+                    return v
+                raise PathRaise(e)
             return Opq("item", k, Opq("dict", *base.values()))
         seq = None
         if isinstance(base, SList) and base.exact:
